@@ -41,7 +41,11 @@ def cfg(D: int, laws: bool, tier: str, maxfac: int = 3, rich: bool = True) -> st
 def apply(obj, ev: dict):
     op, a = ev["op"], ev["args"]
     if op == "permute":
-        return obj.permute(np.array(a["order"], dtype=int))
+        # the form of the order argument is a presentation (rotated with the array layout)
+        import bind
+        form = {"default": lambda o: np.array(o, dtype=int), "swapped": lambda o: np.array(o, dtype=np.uint8),
+                "strided": lambda o: np.array(o, dtype=np.int16), "grown": lambda o: np.array(o, dtype=np.uint32)}[bind.get_layout()]
+        return obj.permute(form(a["order"]))
     if op == "reshape":
         if a["all"]:
             return obj.reshape(tuple(a["shape"]))
